@@ -43,7 +43,7 @@ def gen(rng, tier):
     cases = []
     frac = 1.0 if tier == "thorough" else 0.35
     for name, keep in [("c01", ("count:", "malformed", "final-word")), ("c14", ("boundary", "malformed", "mutated", "for_index", "maybe-out-of-range")),
-                       ("c15", ("boundary-scalars", "v-sweep", "length:", "mutated", "malformed")), ("c13", ("malformed", "structure", "fuzz-number", "missing-field")),
+                       ("c15", ("boundary-scalars", "v-sweep", "length:", "mutated", "malformed", "utf8-straddle")), ("c13", ("malformed", "structure", "fuzz-number", "missing-field")),
                        ("c09", ("int-boundary", "bytesN", "wrong-kind", "structural")), ("c20", ("repeated", "foreign", "wrong-type", "no-domain-type")),
                        ("c11", ("sig.v",)), ("c19", ("malformed", "mutated")), ("c12", ("fail", "L:unsupported", "bad-length", "short-read", "vanity-fail"))]:
         mod = importlib.import_module("vlib.props." + name)
@@ -84,6 +84,14 @@ def gen(rng, tier):
     for r, s, v in [(0, 1, 27), (1, 0, 27), (N, 1, 27), (1, N, 28), (2 ** 256 - 1, 2 ** 256 - 1, 28), (1, 1, 0), (1, 1, 255), (N - 1, N - 1, 28)]:
         for pre in ("0x", ""):
             cases.append(Case("cli.hash_tx %s %s" % (hx(j), hx(pre + "%064x%064x%02x" % (r, s, v))), tags=("cli-signature",), runner="cli", meta={}))
+    for mb in ("é", "€", "😀"):
+        w = len(mb.encode())
+        for k in list(range(0, 8)) + list(range(60, 68)) + list(range(120, 131 - w)):
+            body = ("ab" * 65)[:k] + mb + ("ab" * 65)[k:130 - w]
+            cases.append(Case("cli.hash_tx %s %s" % (hx(j), hx(rng.choice(["", "0x"]) + body)), tags=("cli-signature", "utf8-straddle"), runner="cli", meta={}))
+        for k in range(0, 65 - w):
+            body = ("cd" * 32)[:k] + mb + ("cd" * 32)[k:64 - w]
+            cases.append(Case("cli.sign_raw %s - default %s" % (mn, hx(rng.choice(["", "0x"]) + body)), tags=("cli-digest", "utf8-straddle"), runner="cli", meta={"via": {}}))
     for bad in ["", "0x", "0x1", "zz" * 65, "é" * 65, "0x" + "é" * 65]:
         cases.append(Case("cli.hash_tx %s %s" % (hx(j), hx(bad)), tags=("cli-signature",), runner="cli", meta={}))
     # worker counts with refused and accepted selectors (the former used to hang: panicking workers + live sender)
